@@ -353,7 +353,7 @@ func (wd *world) run() [2]int {
 			allAges = append(allAges, [2]int{wd.reps[0].age(ob.d), wd.reps[1].age(ob.d)})
 		}
 		from := [2]int{wd.reps[0].logLen(), wd.reps[1].logLen()}
-		panicsBefore := wd.reps[0].sizePanics + wd.reps[1].sizePanics
+		panicsBefore := wd.reps[0].nSizePanics() + wd.reps[1].nSizePanics()
 
 		wd.reps[0].opStart()
 		wd.reps[1].opStart()
@@ -411,7 +411,7 @@ func (wd *world) run() [2]int {
 		opn := "mirroredBlobAccess." + opNames[o.kind]
 
 		// ---- panics (candidate defect P1 shows up here) ----
-		if wd.reps[0].sizePanics+wd.reps[1].sizePanics > panicsBefore {
+		if wd.reps[0].nSizePanics()+wd.reps[1].nSizePanics() > panicsBefore {
 			// The replicator handed a replica's Put a buffer whose
 			// GetSizeBytes() panics: the stream clone of a buffer with a
 			// background task (the refresh of a real local store) has lost its
@@ -419,28 +419,28 @@ func (wd *world) run() [2]int {
 			// process (panic in the task goroutine).
 			w.Count("p1_sink_size_panics", 1)
 			c.Violation(sigP1, "%v: the upload buffer handed to the first-consulted replica for the repair panics in GetSizeBytes (a local store calls it first thing in Put, in a goroutine without recover)\n%v", o, strings.Join(cs, "\n"))
-			return [2]int{wd.reps[0].calls, wd.reps[1].calls}
+			return [2]int{wd.reps[0].nCalls(), wd.reps[1].nCalls()}
 		}
 		if res.panic != nil {
 			if withTask && strings.Contains(res.stack, "digest.Digest.unpack") {
 				w.Count("p1_reader_panics", 1)
 				c.Violation(sigP1, "%v: reading the buffer returned by the composite panics (%v): the repair read went through a stream clone of a refresh-in-progress buffer, which lost its digest\n%s", o, res.panic, res.stack)
-				return [2]int{wd.reps[0].calls, wd.reps[1].calls}
+				return [2]int{wd.reps[0].nCalls(), wd.reps[1].nCalls()}
 			}
 			panic(fmt.Sprintf("%v\n%s", res.panic, res.stack))
 		}
 
-		if wd.reps[0].storm || wd.reps[1].storm {
+		if wd.reps[0].stormed() || wd.reps[1].stormed() {
 			c.Violation(opn+":unbounded-replica-calls", "%v made more than %d calls to one replica (the fall-back to the other replica must happen exactly once); first calls: %v", o, wd.reps[0].opLimit, cs[:12])
-			return [2]int{wd.reps[0].calls, wd.reps[1].calls}
+			return [2]int{wd.reps[0].nCalls(), wd.reps[1].nCalls()}
 		}
 
 		// ---- a replica that acknowledges an upload and serves other bytes ----
 		for _, rep := range wd.reps {
-			if len(rep.corruptPuts) > 0 {
+			if bad := rep.corrupt(); len(bad) > 0 {
 				w.Count("local_store_corrupt_puts", 1)
-				c.Violation("localStore("+rep.kind+").Put:acknowledged-upload-reads-back-wrong", "%s\n(defect of the replica, not of the mirrored composite; the case is dropped)", strings.Join(rep.corruptPuts, "\n"))
-				return [2]int{wd.reps[0].calls, wd.reps[1].calls}
+				c.Violation("localStore("+rep.kind+").Put:acknowledged-upload-reads-back-wrong", "%s\n(defect of the replica, not of the mirrored composite; the case is dropped)", strings.Join(bad, "\n"))
+				return [2]int{wd.reps[0].nCalls(), wd.reps[1].nCalls()}
 			}
 		}
 
@@ -457,7 +457,7 @@ func (wd *world) run() [2]int {
 			// Not the composite's doing (BlobAccess has no delete): a local
 			// replica rotated the object out. The case can no longer be judged.
 			w.Count("aborted_local_eviction", 1)
-			return [2]int{wd.reps[0].calls, wd.reps[1].calls}
+			return [2]int{wd.reps[0].nCalls(), wd.reps[1].nCalls()}
 		}
 
 		nontrivial := len(fired) > 0 || nfFired || withTask
@@ -471,7 +471,11 @@ func (wd *world) run() [2]int {
 			for _, f := range fired {
 				fs = append(fs, fmt.Sprintf("%s#%d.%s=%v", f.replica, f.idx, f.op, *f.fired))
 			}
-			w.Distinct(fmt.Sprintf("%v|%v|%d/%d|%v|%v|first=%d|%v|nf=%v|%s", sc.kinds, o, sc.repl[0], sc.repl[1], sc.metrics, pres, first, fs, nfFired, outcome))
+			keyFirst := first
+			if o.kind == opPut || o.kind == opFindMissing {
+				keyFirst = -1 // both replicas are called in parallel: the order is a scheduling accident
+			}
+			w.Distinct(fmt.Sprintf("%v|%v|%d/%d|%v|%v|first=%d|%v|nf=%v|%s", sc.kinds, o, sc.repl[0], sc.repl[1], sc.metrics, pres, keyFirst, fs, nfFired, outcome))
 		}
 		if o.kind == opGet || o.kind == opGetFromComposite || o.kind == opGetCapabilities {
 			if first == 0 {
@@ -656,11 +660,11 @@ func (wd *world) run() [2]int {
 		}
 	}
 	for r := 0; r < 2; r++ {
-		if wd.reps[r].ls != nil && len(wd.reps[r].ls.errs.msgs) > 0 {
-			w.Count("local_store_error_log_lines", int64(len(wd.reps[r].ls.errs.msgs)))
+		if wd.reps[r].ls != nil && wd.reps[r].ls.errs.count() > 0 {
+			w.Count("local_store_error_log_lines", int64(wd.reps[r].ls.errs.count()))
 		}
 	}
-	return [2]int{wd.reps[0].calls, wd.reps[1].calls}
+	return [2]int{wd.reps[0].nCalls(), wd.reps[1].nCalls()}
 }
 
 // checkSurfaced: "Any replica failure other than NOT_FOUND is surfaced as an
